@@ -468,6 +468,24 @@ pub struct ChanWorld {
     /// (never read back from the monitor under test)
     pub own_chain: (u64, u64, u64),
     pub own_kinds: Vec<u64>,
+    /// height at which the channel was set up: 3 seed headers + the blocks that arrived between the creation of the
+    /// stub (`new_channel`) and `setup_channel` (optional last token of the `setup` op)
+    pub base_h: u64,
+    /// the ids under which the channel is reachable: the initial id, and the permanent id when `setup_channel` was
+    /// given one (optional 10th token of the `setup` op); requests alternate between them
+    pub ids: Vec<ChannelId>,
+    /// index into `ids` of the id used for every request before the first closing signature
+    pub build_id: usize,
+    pub close_signed: bool,
+    /// the harness's OWN ledger of the latest commitments, kept from the requests the signer ACCEPTED (never read
+    /// back from the signer's enforcement state): next holder / counterparty numbers, the validated holder
+    /// commitment that is not yet revoked-into-current (the LAST accepted content for that number), the current
+    /// holder and counterparty commitments.  The mutual-close monitors evaluate the close against these.
+    pub led_nh: u64,
+    pub led_nc: u64,
+    pub led_pending: Option<Commit>,
+    pub led_hold: Option<Commit>,
+    pub led_cp: Option<Commit>,
 }
 
 /// Deliver a block connection the way the front end does: compact proof, or streamed when the compact
@@ -520,6 +538,8 @@ pub struct World {
     /// Some = the node runs on the real persister (`KVVPersister<MemoryKVVStore>`), so that `restart` can
     /// discard the process state and restore it (`Node::restore_node`); used for cases containing `restart`
     pub persister: Option<Arc<dyn Persist>>,
+    /// index of the op being executed (selects the channel id used for the request)
+    pub opno: usize,
 }
 
 /// script universe of the close ops: sid 1..=4 wallet p2wpkh at index sid, 5..=6 wallet p2sh-p2wpkh at
@@ -609,6 +629,7 @@ impl World {
             refused: 0,
             allow_set: BTreeSet::new(),
             persister: None,
+            opno: 0,
         }
     }
 
@@ -706,11 +727,22 @@ impl World {
         self.out.violations.push(Violation { kind: kind.to_string(), desc, at });
     }
 
+    /// the channel id this request goes through (the channel is reachable under every id in `ids`)
+    /// Until a closing signature has been returned every request goes through ONE of the ids (which one: the
+    /// `<perm>` token of the setup op, 1 = the initial id, 2 = the permanent id), afterwards the requests alternate.
+    fn cid(&self) -> ChannelId {
+        let cw = self.chan.as_ref().unwrap();
+        if cw.ids.len() == 2 && !cw.close_signed {
+            return cw.ids[cw.build_id].clone();
+        }
+        cw.ids[self.opno % cw.ids.len()].clone()
+    }
+
     fn digest(&self) -> String {
         let cw = self.chan.as_ref().unwrap();
         cw.node_ctx
             .node
-            .with_channel(&cw.chan_ctx.channel_id, |c| {
+            .with_channel(&self.cid(), |c| {
                 let e = &c.enforcement_state;
                 Ok(format!(
                     "h={} c={} r={} closed={} pend={}",
@@ -790,6 +822,7 @@ impl World {
         if self.dead {
             return "dead".into();
         }
+        self.opno = idx;
         let toks: Vec<&str> = line.split_whitespace().collect();
         if toks.is_empty() {
             return "bad-op".into();
@@ -845,7 +878,15 @@ impl World {
     }
 
     fn op_setup(&mut self, idx: usize, a: &[u64]) -> String {
-        if a.len() != 9 || a[3] > 65535 || a[4] > 65535 || a[5] > 3 {
+        if a.len() < 9 || a.len() > 11 || a[3] > 65535 || a[4] > 65535 || a[5] > 3 {
+            return "bad-op".into();
+        }
+        // optional: <perm> = setup_channel is given a permanent channel id different from the initial one;
+        // <gap> = number of blocks that arrive between the creation of the stub and setup_channel
+        let perm_tok = a.get(9).cloned().unwrap_or(0);
+        let perm = perm_tok != 0;
+        let gap = a.get(10).cloned().unwrap_or(0);
+        if gap > 50 {
             return "bad-op".into();
         }
         if self.chan.as_ref().map(|c| c.ready).unwrap_or(false) {
@@ -878,6 +919,12 @@ impl World {
             Ok(c) => c,
             Err(_) => return "bad-op".into(),
         };
+        // blocks between `new_channel` (the stub above) and `setup_channel`
+        for _ in 0..gap {
+            let mut tracker = node.get_tracker();
+            let (header, proof) = make_testnet_header(tracker.tip(), tracker.height());
+            tracker.add_block(header, proof).unwrap();
+        }
         let ctype = match sn.ctype {
             0 => CommitmentType::Legacy,
             1 => CommitmentType::StaticRemoteKey,
@@ -920,7 +967,9 @@ impl World {
         };
         chan_ctx.setup = setup.clone();
         let cid = chan_ctx.channel_id.clone();
-        let r = catch_unwind(AssertUnwindSafe(|| node.setup_channel(cid, None, setup, &up_path)));
+        let perm_id = if perm { Some(ChannelId::new(&[0x77u8; 32])) } else { None };
+        let perm_id2 = perm_id.clone();
+        let r = catch_unwind(AssertUnwindSafe(|| node.setup_channel(cid, perm_id2, setup, &up_path)));
         match r {
             Err(_) => {
                 self.dead = true;
@@ -932,10 +981,12 @@ impl World {
                 self.out.tags.insert(format!("setup:err:{}", c));
                 // the refused setup must leave the channel a stub: keep the context so that the following
                 // requests (and a repeated setup) still go to the implementation
+                let ids = vec![chan_ctx.channel_id.clone()];
                 self.chan = Some(ChanWorld {
                     ready: false,
                     node_ctx, chan_ctx, setup: sn, funding_tx, blocks: Vec::new(), chain_mode: 0, filler: 0,
-                    seen_cp: BTreeSet::new(), seen_hold: BTreeSet::new(), own_chain: (3, 0, 0), own_kinds: Vec::new(),
+                    seen_cp: BTreeSet::new(), seen_hold: BTreeSet::new(), own_chain: (3 + gap, 0, 0), own_kinds: Vec::new(), base_h: 3 + gap, ids: ids.clone(), build_id: if perm_tok >= 2 { 1 } else { 0 }, close_signed: false,
+                    led_nh: 0, led_nc: 0, led_pending: None, led_hold: None, led_cp: None,
                 });
                 format!("err:{}", c)
             }
@@ -958,10 +1009,19 @@ impl World {
                     self.violation(idx, "setup-upfront-script-unknown",
                         format!("upfront shutdown script sid {} neither wallet nor allowlisted", sn.upfront));
                 }
+                let mut ids = vec![chan_ctx.channel_id.clone()];
+                if let Some(pid) = perm_id {
+                    ids.push(pid);
+                    self.out.tags.insert("setup:two-ids".into());
+                }
+                if gap > 0 {
+                    self.out.tags.insert("setup:gap".into());
+                }
                 self.chan = Some(ChanWorld {
                     ready: true,
                     node_ctx, chan_ctx, setup: sn, funding_tx, blocks: Vec::new(), chain_mode: 0, filler: 0,
-                    seen_cp: BTreeSet::new(), seen_hold: BTreeSet::new(), own_chain: (3, 0, 0), own_kinds: Vec::new(),
+                    seen_cp: BTreeSet::new(), seen_hold: BTreeSet::new(), own_chain: (3 + gap, 0, 0), own_kinds: Vec::new(), base_h: 3 + gap, ids: ids.clone(), build_id: if perm_tok >= 2 { 1 } else { 0 }, close_signed: false,
+                    led_nh: 0, led_nc: 0, led_pending: None, led_hold: None, led_cp: None,
                 });
                 "ok".into()
             }
@@ -1056,7 +1116,7 @@ impl World {
         if !self.chan.as_ref().map(|c| c.ready).unwrap_or(false) {
             return "nochan".into();
         }
-        if a.len() != 4 || a[0] > 6 {
+        if a.len() != 4 || a[0] > 7 {
             return "bad-op".into();
         }
         let cw = match &mut self.chan {
@@ -1089,6 +1149,19 @@ impl World {
                     previous_output: cw.chan_ctx.setup.funding_outpoint,
                     script_sig: ScriptBuf::new(),
                     sequence: Sequence::MAX,
+                    witness: Witness::new(),
+                }],
+                output: vec![TxOut { value: Amount::from_sat(5000), script_pubkey: ScriptBuf::new_p2pkh(&lightning_signer::bitcoin::PubkeyHash::from_byte_array([4u8; 20])) }],
+            }),
+            // 7 = a cooperative close as the newer closing protocol / any counterparty may craft it: a plain spend
+            // of the funding outpoint with a NON-ZERO lock time (and a non-final sequence)
+            7 => txs.push(Transaction {
+                version: Version::TWO,
+                lock_time: LockTime::from_consensus(500_000 + cw.filler),
+                input: vec![TxIn {
+                    previous_output: cw.chan_ctx.setup.funding_outpoint,
+                    script_sig: ScriptBuf::new(),
+                    sequence: Sequence(0xffff_fffd),
                     witness: Witness::new(),
                 }],
                 output: vec![TxOut { value: Amount::from_sat(5000), script_pubkey: ScriptBuf::new_p2pkh(&lightning_signer::bitcoin::PubkeyHash::from_byte_array([4u8; 20])) }],
@@ -1165,7 +1238,7 @@ impl World {
                 let cw = self.chan.as_mut().unwrap();
                 cw.blocks.push(b);
                 cw.own_kinds.push(a[0]);
-                cw.own_chain = own_chain_of(&cw.own_kinds);
+                cw.own_chain = own_chain_of(&cw.own_kinds, cw.base_h);
                 format!("ok {}", self.real_chain())
             }
             Ok(Err(e)) => format!("blk-refused {}", e),
@@ -1206,7 +1279,7 @@ impl World {
                 let cw = self.chan.as_mut().unwrap();
                 cw.blocks.pop();
                 cw.own_kinds.pop();
-                cw.own_chain = own_chain_of(&cw.own_kinds);
+                cw.own_chain = own_chain_of(&cw.own_kinds, cw.base_h);
                 format!("ok {}", self.real_chain())
             }
             Ok(Err(e)) => format!("unblk-refused {}", e),
@@ -1237,7 +1310,7 @@ impl World {
         let received = htlc_infos(2, &cm.received);
         let (node, cid) = {
             let cw = self.chan.as_ref().unwrap();
-            (cw.node_ctx.node.clone(), cw.chan_ctx.channel_id.clone())
+            (cw.node_ctx.node.clone(), self.cid())
         };
         // holder's outgoing HTLCs (received by the counterparty in its commitment) are backed by keysends
         self.add_keysends(&node, &received);
@@ -1290,6 +1363,14 @@ impl World {
         let (line, ok) = self.finish(r);
         if ok.is_some() {
             self.monitor_commitment(idx, true, &cm, chain_before, 0);
+            // ledger: signing counterparty commitment n moves the counter to n + 1; a NEW number replaces the
+            // current counterparty commitment, a retry (n + 1 = next) leaves it
+            let cw = self.chan.as_mut().unwrap();
+            let num = n.saturating_add(1);
+            if num > cw.led_nc {
+                cw.led_cp = Some(cm.clone());
+            }
+            cw.led_nc = num;
         }
         line
     }
@@ -1316,7 +1397,7 @@ impl World {
         let received = htlc_infos(4, &cm.received);
         let (node, cid) = {
             let cw = self.chan.as_ref().unwrap();
-            (cw.node_ctx.node.clone(), cw.chan_ctx.channel_id.clone())
+            (cw.node_ctx.node.clone(), self.cid())
         };
         self.add_keysends(&node, &offered);
         self.add_keysends(&node, &received);
@@ -1392,6 +1473,12 @@ impl World {
         let (line, ok) = self.finish(r);
         if ok.is_some() {
             self.monitor_commitment(idx, false, &cm, chain_before, nh_before);
+            // ledger: an accepted validation of the NEXT holder number is the pending holder commitment; when it is
+            // validated again before the revocation, the LAST accepted content is the one in force
+            let cw = self.chan.as_mut().unwrap();
+            if n == cw.led_nh {
+                cw.led_pending = Some(cm.clone());
+            }
         }
         line
     }
@@ -1404,10 +1491,21 @@ impl World {
             Some(c) => c,
             None => return "nochan".into(),
         };
-        let (node, cid) = (cw.node_ctx.node.clone(), cw.chan_ctx.channel_id.clone());
+        let (node, cid) = (cw.node_ctx.node.clone(), self.cid());
         let n = a[0];
         let r = catch_unwind(AssertUnwindSafe(|| node.with_channel(&cid, |c| c.revoke_previous_holder_commitment(n))));
-        self.finish(r).0
+        let (line, ok) = self.finish(r);
+        if ok.is_some() {
+            // ledger: revoking the current holder number makes the pending commitment the current one
+            let cw = self.chan.as_mut().unwrap();
+            if n == cw.led_nh {
+                if let Some(p) = cw.led_pending.take() {
+                    cw.led_hold = Some(p);
+                    cw.led_nh = n + 1;
+                }
+            }
+        }
+        line
     }
 
     fn op_cprevoke(&mut self, a: &[u64]) -> String {
@@ -1418,7 +1516,7 @@ impl World {
             Some(c) => c,
             None => return "nochan".into(),
         };
-        let (node, cid) = (cw.node_ctx.node.clone(), cw.chan_ctx.channel_id.clone());
+        let (node, cid) = (cw.node_ctx.node.clone(), self.cid());
         let n = a[0];
         let secret = SecretKey::from_slice(&build_commitment_secret(&[3u8; 32], INITIAL_COMMITMENT_NUMBER - n)).unwrap();
         let r = catch_unwind(AssertUnwindSafe(|| node.with_channel(&cid, |c| c.validate_counterparty_revocation(n, &secret))));
@@ -1549,7 +1647,7 @@ impl World {
             Some(c) => c,
             None => return "nochan".into(),
         };
-        let (node, cid) = (cw.node_ctx.node.clone(), cw.chan_ctx.channel_id.clone());
+        let (node, cid) = (cw.node_ctx.node.clone(), self.cid());
         let (hv, cv) = (a[0], a[1]);
         // the op line carries (present, sid, len, rank, canSpend, allowlisted) per side; the path index is
         // implied by canSpend: the script's own index when spendable, a wrong index (7) or master otherwise
@@ -1581,7 +1679,7 @@ impl World {
             Some(c) => c,
             None => return "nochan".into(),
         };
-        let (node, cid) = (cw.node_ctx.node.clone(), cw.chan_ctx.channel_id.clone());
+        let (node, cid) = (cw.node_ctx.node.clone(), self.cid());
         let funding = cw.chan_ctx.setup.funding_outpoint;
         let mut outs = Vec::new();
         let mut paths = Vec::new();
@@ -1617,24 +1715,15 @@ impl World {
         line
     }
 
-    /// (holder info, counterparty info) values read from the real enforcement state:
-    /// (to_holder, to_cp, nhtlcs) for each of the two current commitments
+    /// (holder commitment, counterparty commitment) as (to_holder, to_cp, nhtlcs) each: the latest commitments
+    /// according to the harness's own ledger of accepted requests -- not what the signer under test believes
     fn snapshot(&self) -> Option<((u64, u64, usize), (u64, u64, usize))> {
         let cw = self.chan.as_ref()?;
-        cw.node_ctx
-            .node
-            .with_channel(&cw.chan_ctx.channel_id, |c| {
-                let e = &c.enforcement_state;
-                Ok(match (&e.current_holder_commit_info, &e.current_counterparty_commit_info) {
-                    (Some(h), Some(cp)) => Some((
-                        (h.to_broadcaster_value_sat, h.to_countersigner_value_sat, h.offered_htlcs.len() + h.received_htlcs.len()),
-                        (cp.to_countersigner_value_sat, cp.to_broadcaster_value_sat, cp.offered_htlcs.len() + cp.received_htlcs.len()),
-                    )),
-                    _ => None,
-                })
-            })
-            .ok()
-            .flatten()
+        let f = |c: &Commit| (c.to_holder, c.to_cp, c.offered.len() + c.received.len());
+        match (&cw.led_hold, &cw.led_cp) {
+            (Some(h), Some(c)) => Some((f(h), f(c))),
+            _ => None,
+        }
     }
 
     /// CloseOK evaluated independently (u128/i128) for one assignment; returns the violated kinds
@@ -1759,9 +1848,15 @@ impl World {
         let sn = cw.setup.clone();
         let funding = cw.chan_ctx.setup.funding_outpoint;
         let cp_funding = cw.chan_ctx.setup.counterparty_points.funding_pubkey;
-        let closed = node.with_channel(&cid, |c| Ok(c.enforcement_state.channel_closed)).unwrap_or(false);
-        if !closed {
-            self.violation(idx, "close-not-marked-closed", "closing signature returned but channel_closed is false".into());
+        let ids = cw.ids.clone();
+        self.chan.as_mut().unwrap().close_signed = true;
+        for id in &ids {
+            let closed = node.with_channel(id, |c| Ok(c.enforcement_state.channel_closed)).unwrap_or(false);
+            if !closed {
+                self.violation(idx, "close-not-marked-closed",
+                    format!("closing signature returned but the channel reached through id #{} of {} is not marked closed",
+                        ids.iter().position(|x| x == id).unwrap_or(0), ids.len()));
+            }
         }
         // the signature must verify against the canonical closing transaction built here from scratch
         let node2 = node.clone();
@@ -1800,10 +1895,10 @@ impl World {
 
 /// chain state implied by the blocks the harness connected on top of height 3 (kind 1 = funding tx,
 /// kinds 2/3/4 = a spend of the funding outpoint: plain, holder commitment, counterparty commitment): depth = number of blocks from that block to the tip
-fn own_chain_of(kinds: &[u64]) -> (u64, u64, u64) {
+fn own_chain_of(kinds: &[u64], base: u64) -> (u64, u64, u64) {
     let n = kinds.len() as u64;
     let depth = |ks: &[u64]| kinds.iter().position(|b| ks.contains(b)).map(|i| n - i as u64).unwrap_or(0);
-    (3 + n, depth(&[1]), depth(&[2, 3, 4, 5, 6]))
+    (base + n, depth(&[1]), depth(&[2, 3, 4, 5, 6, 7]))
 }
 
 /// content of a commitment up to the order of its HTLCs (what `CommitmentInfo2` equality sees)
